@@ -9,6 +9,7 @@
 #include <cstdio>
 #include <cstdlib>
 #include <cstring>
+#include <fcntl.h>
 #include <iostream>
 #include <set>
 #include <sys/syscall.h>
@@ -99,10 +100,18 @@ static int cmd_batch(int argc, char **argv)
     QJsonArray samples;
     double start = real_now();
     uint64_t ph = sim::fnv1a(prop.data(), prop.size());
+    std::string curpath = outdir + "/w" + std::to_string(first) + ".cur";
+    int curfd = ::open(curpath.c_str(), O_WRONLY | O_CREAT | O_TRUNC, 0644);
     for (long k = 0; k < count; k++) {
         long index = first + k * stride;
         uint64_t seed = sim::mix(sim::mix(base, ph), (uint64_t)index);
         FPlan plan = generate(prop, tier, seed);
+        if (curfd >= 0) {
+            // progress marker: if this process dies inside the history, the driver knows which one
+            char buf[64];
+            int n = snprintf(buf, sizeof buf, "%ld %ld          \n", k, index);
+            if (pwrite(curfd, buf, (size_t)n, 0) < 0) { }
+        }
         Result r = run_history(plan);
         runs++;
         if (k < 4) {
@@ -144,6 +153,8 @@ static int cmd_batch(int argc, char **argv)
         if (real_now() - start > budget_s)
             break;
     }
+    if (curfd >= 0)
+        ::close(curfd);
     QJsonObject st;
     st["kind"] = "stats";
     st["prop"] = QString::fromStdString(prop);
@@ -205,6 +216,17 @@ int main(int argc, char **argv)
     if (argc < 2)
         return 2;
     std::string cmd = argv[1];
+    if (cmd == "plan") {
+        // fsim plan <prop> <tier> <base_seed> <index>: the plan a batch would run at that index
+        if (argc < 6)
+            return 2;
+        std::string prop = argv[2];
+        uint64_t ph = sim::fnv1a(prop.data(), prop.size());
+        uint64_t seed = sim::mix(sim::mix(strtoull(argv[4], nullptr, 10), ph), strtoull(argv[5], nullptr, 10));
+        FPlan p = generate(prop, argv[3], seed);
+        printf("%s\n", QJsonDocument(to_json(p)).toJson(QJsonDocument::Compact).constData());
+        return 0;
+    }
     if (cmd == "gen") {
         if (argc < 5)
             return 2;
